@@ -225,4 +225,38 @@ example : (tracedSolveT C02.exI (fun u _ => u) true false { maxIter := 10 } 5 2
 example : (tracedSolveT C02.exI (fun u _ => u) false false { maxIter := 10 } 5 2
       ⟨(0, []), List.replicate 5 .unsolved, List.replicate 5 (-1)⟩).1.user = (3, []) := by decide
 
+/-! ### A trace is only ever extended -/
+
+/-- **With `reset = False` tracing never rewrites what it has recorded.**  Whatever the outcome of the solve — solved,
+    failed, skipped, an exception in a hook or a pass, a rejected call — the trace afterwards is the trace before with
+    snapshots appended: earlier snapshots (of this or of an earlier solve of the period) are never altered, dropped or
+    reordered. -/
+theorem trace_only_extends (on : Bool) (w : World (σ × List (TraceLabel × S))) :
+    ∃ s, (tracedSolveT I snap on false o n t w).1.user.2 = w.user.2 ++ s := by
+  unfold tracedSolveT
+  have hP : Preserved (traced I snap on false) o t (fun u => ∃ s, u.2 = w.user.2 ++ s) := by
+    constructor
+    · intro _ u h; exact h
+    · intro u ⟨s, h⟩
+      simp only [traced, recordSnap, Bool.false_eq_true, if_false]
+      rcases hb : I.before o u.1 t with ⟨u', b⟩
+      cases b <;> cases on <;> simp only [Bool.false_eq_true, if_false, if_true, h, List.append_assoc] <;>
+        first | exact ⟨_, rfl⟩ | exact ⟨s, rfl⟩
+    · intro u k ⟨s, h⟩
+      simp only [traced, recordSnap, Bool.false_eq_true, if_false]
+      rcases hb : I.eval o u.1 t k with ⟨u', b⟩
+      cases b <;> cases on <;> simp only [Bool.false_eq_true, if_false, if_true, h, List.append_assoc] <;>
+        first | exact ⟨_, rfl⟩ | exact ⟨s, rfl⟩
+    · intro u k ⟨s, h⟩
+      simp only [traced, recordSnap, Bool.false_eq_true, if_false]
+      rcases hb : I.after o u.1 t k with ⟨u', b⟩
+      cases b <;> cases on <;> simp only [Bool.false_eq_true, if_false, if_true, h, List.append_assoc] <;>
+        first | exact ⟨_, rfl⟩ | exact ⟨s, rfl⟩
+  cases on
+  · simp only [Bool.false_eq_true, if_false]
+    exact solveT_inv (traced I snap false false) o t _ hP n w ⟨[], by simp⟩
+  · simp only [if_true]
+    exact solveT_inv (traced I snap true false) o t _ hP n _
+      ⟨[(TraceLabel.start, snap w.user.1 t)], by simp [withUser, recordSnap]⟩
+
 end Fsic.C17
